@@ -23,17 +23,23 @@
                      (`None` when the kept ones are all empty);
       `addMd`      = `add_metadata`: `dict.update` in place, or a new tuple; then `_cast_metadata`
                      re-wraps both axes;
-      `delMd`      = `del_metadata`: `del md[k]` in place, `None` when nothing is left.
-  * `Op.inplace r bodies` is `table = self`, `Op.new srcs F .. post` is a constructor call whose
-    arguments are computed from the source tables (`F` is ANY content function: what filter, sort,
-    merge … compute is not re-modelled here) followed by in-place bodies on the new table
-    (`copy()` then the body = the `inplace=False` variant; `head`, `subsample`, `partition`).
+      `delMd`      = `del_metadata`: `del md[k]` in place, `None` when nothing is left;
+      `relayout`   = the read accessors `_get_row/_get_col` (behind `data`, `iter`, `partition`,
+                     `collapse`, the general path of `merge`): `self._data = self._data.tocsr()/tocsc()`
+                     on the table that is READ — its content is untouched, its buffer may be replaced.
+  * `Op.inplace r bodies` is `table = self`; `Op.new pre srcs F .. post` is: re-layouts of source
+    tables while the arguments are computed, then a constructor call whose arguments are computed
+    from the source tables (`F` is ANY content function: what filter, sort, merge … compute is not
+    re-modelled here), then in-place bodies on the new table (`copy()` then the body = the
+    `inplace=False` variant; `head`, `subsample`, `partition(remove_empty=True)`).
+  * `holds` is the property on observations only (snapshots, object identities); `obsOp` is the
+    model's own observation of a call; `handle` evaluates `holds` on the real code's observations
+    and compares contents, layouts and aliasing facts with the model heap.
 -/
 import BiomModel.Codec
 open Lean
 
 namespace Biom.C07
-
 
 inductive Fmt where
   | csr | csc
